@@ -7,6 +7,7 @@ use serde_json::{json, Value};
 pub mod locks;
 pub mod loose;
 pub mod odb;
+pub mod packing;
 pub mod parallel;
 pub mod pathstack;
 pub mod pktline;
@@ -16,7 +17,7 @@ pub mod wtstream;
 pub mod zstream;
 
 pub fn all() -> Vec<&'static dyn Scenario> {
-    vec![&selftest::SelfTest, &parallel::Parallel, &refstore::RefStore, &pktline::PktLine, &pathstack::PathStack, &zstream::ZStream, &locks::Locks, &odb::OdbRepack, &loose::LooseStore, &wtstream::WtStream]
+    vec![&selftest::SelfTest, &parallel::Parallel, &refstore::RefStore, &pktline::PktLine, &pathstack::PathStack, &zstream::ZStream, &locks::Locks, &odb::OdbRepack, &loose::LooseStore, &wtstream::WtStream, &packing::PackIngest]
 }
 
 /// Which scenario decides a property.
